@@ -44,6 +44,9 @@ def true_arg_calls(body, name):
 
 def check(ctx):
     prog = ctx.prog
+    # key and certificate are different files: the two configured extensions survive the merge of included [global] tables (C14.R2)
+    from .c14 import merge_pairing as _mp
+    _mp(ctx, ctx.rule("M1", "[shared with C14] pk_file_ext / cert_file_ext of an included [global] table are merged into the same-named option"), only=("pk_file_ext", "cert_file_ext"))
     b = prog.async_body(WF)
     R1 = ctx.rule("R1", "every open() of a storage file is preceded on all paths by write(true) and truncate(true)|create_new(true) on the same builder, never append(true)")
     open_rule(ctx, R1)
